@@ -334,6 +334,9 @@ class ParseContext:
         name=fn_or_cls_name,
         module=module,
         import_source=self._import_source(source, attr_names),
+        # A re-registration keeps the lists the configurable was registered with.
+        allowlist=original.allowlist if original else None,
+        denylist=original.denylist if original else None,
         avoid_class_mutation=True)
     if original is not None:  # We've re-registered something...
       # Point existing references at the new registration directly: their
